@@ -21,6 +21,7 @@ def parseStep (j : Json) : Except String Step := do
   match s with
   | "push" => pure .push
   | "pushBegin" => pure .pushBegin
+  | "pushRejected" => pure .pushRejected
   | "pushStore" => pure (.pushStore (← getInt j "id"))
   | "flushTimeout" => pure .flushTimeout
   | "start" => pure (.start (← getInt j "id") ((← getOptInt j "w").getD 0).toNat)
